@@ -128,6 +128,22 @@ def gen_bounds(rng, n, profile):
             lo = rng.randint(-2, 3); out.append((lo, lo + rng.randint(0, 4)))
     return out
 
+# coefficient magnitudes a for which q*a*(1.0/a) != q for some small q (multiplying by a reciprocal instead of
+# dividing lands just below the exact quotient): 49, 98, 103, 107, 161, ...
+RECIP = [a for a in range(2, 400) if any(float(q * a) * (1.0 / a) != float(q) for q in range(1, 6))]
+
+def gen_recip(rng):
+    """a row whose tightened bound is an EXACT quotient q = (a*q)/a with a in RECIP, attained by a solution"""
+    a = rng.choice(RECIP); q = rng.randint(1, 3)
+    lo = rng.choice([0, 0, -1])
+    bnds = [(lo, q + rng.choice([0, 0, 1])), (0, a * q)]
+    M = [[0, -a, 1]] if rng.random() < 0.6 else [[-a * q, a, -1]]       # -a p + y >= 0   /   a p - y >= -a q
+    if rng.random() < 0.4:
+        bnds.append((0, 1)); M = [r + [rng.choice([0, 1, -1])] for r in M]
+    if rng.random() < 0.3:
+        M.append([rng.randint(-2, 1)] + [rng.choice([0, 1, -1]) for _ in bnds])
+    return M, bnds, "recip"
+
 def gen_system(rng, profile=None, max_rows=4, max_cols=4):
     """A small system (M, bnds, profile).  Profiles steer towards the guards of the code:
        bool     boolean columns, +-1 coefficients (what the logic layer emits for leaves)
@@ -137,7 +153,9 @@ def gen_system(rng, profile=None, max_rows=4, max_cols=4):
        infeas   forcing rows plus a contradicting one
        zeros    zero rows / zero columns sprinkled in
        wide     int16-range bounds, large coefficients / constants"""
-    profile = profile or rng.choice(["bool", "bigm", "mixed", "mixed", "forcing", "forcing", "chain", "infeas", "zeros", "wide"])
+    profile = profile or rng.choice(["bool", "bigm", "mixed", "mixed", "forcing", "forcing", "chain", "infeas", "zeros", "wide", "recip"])
+    if profile == "recip":
+        return gen_recip(rng)
     if profile == "chain":
         return gen_chain(rng, max_rows, max_cols)
     n = rng.randint(1, max_cols); r = rng.randint(1, max_rows)
